@@ -122,6 +122,8 @@ def build_case(sc, ctx):
     name, rel, rp = pairs(sc['pat'])[sc['pair']]
     sp = pattern_atoms(pel, pp, q0=-0.7, g0=90)
     rpat = pattern_atoms(rel, rp)
+    if sc.get('rcell') and len(rel):      # the replacement pattern carries a cell of its own (as patterns loaded from CIF / LAMMPS files do)
+        rpat.cell = np.array([[4.0, 0, 0], [1.0, 5.0, 0], [0.5, -0.5, 6.0]]) if sc['rcell'] == 2 else np.diag([30.0, 30.0, 30.0])
     if sc.get('frame'):      # both patterns written in a coordinate frame far from the origin
         sp.positions = sp.positions + np.array(sc['frame'], float)
         if len(rel):
